@@ -88,6 +88,14 @@ pub struct FnInfo {
     /// `N` (a const generic of the function or of its impl) is the capacity
     pub has_n: bool,
     pub file: String,
+    /// the operations of the element type the bounds of the impl give the function, as leading
+    /// parameters (name, Coq type): `T: PartialEq<U>` -> eqf, `T: PartialOrd<U>` / `T: Ord` -> cmpf
+    pub fparams: Vec<(String, String)>,
+    /// `T: Copy`: an element has no destructor
+    pub copy_elems: bool,
+    /// the function returns a buffer built by a constructor it calls: the memory that receives it is
+    /// the parameter `mem'`
+    pub mem_param: bool,
 }
 
 /// what is known once the body is translated
@@ -142,6 +150,10 @@ pub struct Tr<'a> {
     /// the loops of the function, as Fixpoints (text), in order
     pub aux: Vec<String>,
     pub loops: usize,
+    /// how many of the fuel expressions of the unit are used up (by loops and by adaptors)
+    pub fuel_ix: usize,
+    /// the memory `mem'` has received its buffer
+    pub mem_used: bool,
     pub fuel: &'a [&'static str],
     /// only state reads so far / user code called
     pub harmless: bool,
@@ -243,6 +255,12 @@ pub struct TyCtx {
     pub owner: Option<String>,
     /// the type parameters bounded by `RangeBounds<usize>`
     pub bounds_params: Vec<String>,
+    /// the type parameters bounded by `core::ops::OneSidedRange<usize>`
+    pub osr_params: Vec<String>,
+    /// the type parameters bounded by `Hasher`
+    pub hasher_params: Vec<String>,
+    /// the type parameters bounded by `IntoIterator<Item = ..>`, with the type of the items
+    pub driver_params: Vec<(String, Ty)>,
     /// `type Item = ..` / `type Output = ..` of the impl
     pub assoc: HashMap<String, syn::Type>,
     /// `&[T]` parameters of this name are data outside the array
@@ -284,6 +302,14 @@ pub fn type_of(t: &syn::Type, cx: &TyCtx) -> Res<Ty> {
         syn::Type::Path(p) if p.qself.is_none() && p.path.get_ident().map(|i| cx.bounds_params.contains(&i.to_string())).unwrap_or(false) => {
             Ok(Ty::Bounds)
         }
+        syn::Type::Path(p) if p.qself.is_none() && p.path.get_ident().map(|i| cx.osr_params.contains(&i.to_string())).unwrap_or(false) => {
+            Ok(Ty::Osr)
+        }
+        syn::Type::Path(p) if p.qself.is_none() && p.path.get_ident().map(|i| cx.driver_params.iter().any(|(n, _)| i == n)).unwrap_or(false) => {
+            let i = p.path.get_ident().unwrap().to_string();
+            let t = cx.driver_params.iter().find(|(n, _)| *n == i).unwrap().1.clone();
+            Ok(Ty::IterDriver(Box::new(t)))
+        }
         syn::Type::Path(p) if p.qself.is_none() => {
             let s = match last_seg(&p.path) {
                 Some(s) => s,
@@ -292,6 +318,13 @@ pub fn type_of(t: &syn::Type, cx: &TyCtx) -> Res<Ty> {
             let name = s.ident.to_string();
             if rec_coq(&name).is_some() {
                 return Ok(Ty::Rec(name));
+            }
+            if norm_tokens(t) == "fmt :: Result" {
+                // the model has no formatting errors: see the std table
+                return Ok(Ty::Unit);
+            }
+            if norm_tokens(t) == "Ordering" {
+                return Ok(Ty::Ordering);
             }
             let args = seg_args(s)?;
             match (name.as_str(), args.as_slice()) {
@@ -308,12 +341,36 @@ pub fn type_of(t: &syn::Type, cx: &TyCtx) -> Res<Ty> {
                 }
                 ("Range", [a]) if type_of(a, cx)? == Ty::Usize => Ok(Ty::Range),
                 ("NonNull", [syn::Type::Path(q)]) if is_buffer_path(q) => Ok(Ty::Buf),
+                ("Box", [_]) => unsupported(
+                    "`Box<Self>`: a buffer in a heap allocation of its own (Box::new_uninit, fields written through addr_of_mut! of a raw pointer into the allocation, assume_init): the model has one array, the one of the state, and no other memory that can be written",
+                    t.span(),
+                ),
+                ("Vec", [_]) => unsupported(
+                    "`Vec<T>`: a growing vector of elements by value (Vec::with_capacity, Vec::extend with a Cloned<Iter>, the partially built Vec destroying its clones when a clone unwinds): elements outside the array are only rendered as immutable lists",
+                    t.span(),
+                ),
                 ("CircularBuffer", _) => unsupported(
                     "a buffer by value: in the model the buffer is the state of the computation, not a value a computation receives or returns",
                     t.span(),
                 ),
                 _ => unsupported(&format!("type `{}`", norm_tokens(t)), t.span()),
             }
+        }
+        syn::Type::Reference(r) if is_u_list(t) => {
+            let _ = r;
+            Ok(Ty::List)
+        }
+        syn::Type::Reference(r) if r.mutability.is_some() && norm_tokens(&r.elem) == "fmt :: Formatter < '_ >" => Ok(Ty::Formatter),
+        syn::Type::Reference(r)
+            if r.mutability.is_some()
+                && matches!(&*r.elem, syn::Type::Path(p) if p.qself.is_none() && p.path.get_ident().map(|i| cx.hasher_params.contains(&i.to_string())).unwrap_or(false)) =>
+        {
+            Ok(Ty::Hasher)
+        }
+        syn::Type::Reference(r)
+            if matches!(&*r.elem, syn::Type::Path(p) if is_plain(p, "Self")) && cx.owner.as_deref() == Some("CircularBuffer") =>
+        {
+            Ok(Ty::Buf)
         }
         syn::Type::Reference(r) => match &*r.elem {
             e if is_slot_type(e) => Ok(Ty::Ref),
@@ -331,12 +388,35 @@ pub fn type_of(t: &syn::Type, cx: &TyCtx) -> Res<Ty> {
             _ => unsupported(&format!("reference type `{}`", norm_tokens(t)), t.span()),
         },
         syn::Type::Ptr(p) if is_slot_type(&p.elem) => Ok(Ty::Ptr),
+        syn::Type::Array(a) if is_slot_type(&a.elem) => unsupported(
+            &format!(
+                "`{}`: an array of elements by value, taken over piecewise (mem::ManuallyDrop, ptr::copy_nonoverlapping out of it into the items of a new buffer, ptr::drop_in_place of the part left behind): elements outside the buffer's array are only rendered as immutable lists",
+                norm_tokens(t)
+            ),
+            t.span(),
+        ),
         syn::Type::Tuple(tt) => {
             let v = tt.elems.iter().map(|x| type_of(x, cx)).collect::<Res<Vec<_>>>()?;
             Ok(if v.is_empty() { Ty::Unit } else { Ty::Tuple(v) })
         }
         _ => unsupported(&format!("type `{}`", norm_tokens(t)), t.span()),
     }
+}
+
+/// `&[U]`, `&[U; M]`, `&&'a [U]`, `&&'a mut [U]`, `&&'a [U; M]`, `&&'a mut [U; M]`: the elements another
+/// value is compared with, data outside the array
+pub fn is_u_list(t: &syn::Type) -> bool {
+    fn inner(t: &syn::Type, depth: usize) -> bool {
+        match t {
+            syn::Type::Reference(r) if depth < 2 => inner(&r.elem, depth + 1),
+            syn::Type::Slice(s) if depth >= 1 => matches!(&*s.elem, syn::Type::Path(p) if is_plain(p, "U")),
+            syn::Type::Array(a) if depth >= 1 => {
+                matches!(&*a.elem, syn::Type::Path(p) if is_plain(p, "U")) && norm_tokens(&a.len) == "M"
+            }
+            _ => false,
+        }
+    }
+    inner(t, 0)
 }
 
 /// `&mut &'a [T]` / `&mut &'a mut [T]`
@@ -457,7 +537,12 @@ impl<'a> Tr<'a> {
     }
 
     pub fn op_user(&self, f: &str) -> bool {
-        if ["drop_elem", "drop_slice", "drop_opt", "drop_list", "clone_elem", "call_closure"].contains(&f) {
+        if ["drop_elem", "drop_slice", "drop_opt", "drop_list", "clone_elem", "call_closure", "emit", "user_call", "iter_for_each",
+            "slice_eq", "iter_cmp_loop"].contains(&f) {
+            return true;
+        }
+        if f.ends_with('\'') || f == "gen_user_for_each" || f == "gen_refs_for_each" || f == "cloned_for_each" {
+            // a driver applied to a closure
             return true;
         }
         match f.strip_prefix("gen_") {
